@@ -22,6 +22,12 @@ def minAtomId : Int := -9999
 def minResId : Int := -999
 def h36AtomWidth : Nat := 5
 def h36ResWidth : Nat := 4
+/-- CRYST1: reader slices, the writer's f-string (name, justification, width), decimals, trailing literal, box checks -/
+def cryst1Slices : List (String × Nat × Nat) := [("_a", 6, 15), ("_b", 15, 24), ("_c", 24, 33), ("_alpha", 33, 40), ("_beta", 40, 47), ("_gamma", 47, 54), ("_space", 55, 66), ("_z", 66, 70)]
+def cryst1Line : List (String × String × Nat) := [("lit", "lit", 6), ("a", "rjust", 9), ("b", "rjust", 9), ("c", "rjust", 9), ("alpha", "rjust", 7), ("beta", "rjust", 7), ("gamma", "rjust", 7), ("lit", "lit", 26)]
+def cryst1Decimals : List Nat := [3, 3, 3, 2, 2, 2]
+def cryst1Tail : String := " P 1           1          "
+def cryst1Check : List ((String × Nat × Nat) × Nat) := [((">", 9, 3), 9), ((">", 7, 2), 7)]
 /-- hybrid36.pyx -/
 def asciiFirstLetterLower : Nat := 97
 def asciiFirstLetterUpper : Nat := 65
